@@ -48,6 +48,7 @@ func (c *c05) Cases(tier string, seed int64) []core.Case {
 		cs = append(cs, core.MkCase(fmt.Sprintf("many-slices-%d", i), c05Params{r.Int63()&^(0xffff<<8) | int64(i)<<8, "many-slices"}))
 	}
 	cs = append(cs, core.MkCase("near-16k", c05Params{r.Int63(), "near-16k"}))
+	cs = append(cs, core.MkCase("many-slices-and-blocks-max", c05Params{r.Int63(), "many-both-max"}))
 	for i := 0; i < map[string]int{"quick": 5, "thorough": 80}[tier]; i++ {
 		for _, h := range encoderHistories {
 			cs = append(cs, core.MkCase(fmt.Sprintf("encoder-%s-%d", h, i), c05Params{r.Int63(), "encoder:" + h}))
@@ -104,6 +105,12 @@ func (c *c05) Run(cs core.Case) core.Result {
 			}
 			set.Files = append(set.Files, scen.File{Name: scen.GenName(rng, i, true, true), Data: scen.GenData(rng, "random", n, slice)})
 		}
+	case "many-both-max":
+		// the largest products of slice index and block index of the quick tier
+		slice := []int{4, 8}[rng.Intn(2)]
+		set = scen.Set{SliceSize: slice, Blocks: 190 + rng.Intn(40), Content: "random"}
+		total := 420 + rng.Intn(100)
+		set.Files = append(set.Files, scen.File{Name: "wide.bin", Data: scen.GenData(rng, "random", total*slice-rng.Intn(slice), slice)})
 	case "many-both":
 		// hundreds of slices x about a hundred blocks with slices short enough
 		// for the scalar kernels: a large sample of coefficients c_i^e
